@@ -5,6 +5,7 @@ import (
 	"go/token"
 	"go/types"
 	"math"
+	"os"
 	"reflect"
 	"strconv"
 	"strings"
@@ -516,6 +517,11 @@ func (m *Machine) publish(v Value) {
 	}
 }
 
+type fileObj struct {
+	name string
+	off  int
+}
+
 func (m *Machine) uniqueLabel(label string) string {
 	k := m.labelCnt[label]
 	m.labelCnt[label]++
@@ -627,7 +633,13 @@ func registerStd() {
 	I["strings.HasPrefix"] = func(m *Machine, fr *frame, args []Value) Value {
 		p, ok := strArg(args[1])
 		if !ok {
-			m.unsupported("strings.HasPrefix with symbolic prefix")
+			// symbolic prefix: lengths are concrete, the bytes are compared as terms
+			pb := m.strBytes(fr, args[1])
+			b := m.strBytes(fr, args[0])
+			if len(b) < len(pb) {
+				return m.C.False
+			}
+			return m.bytesEq(b[:len(pb)], pb)
 		}
 		b := m.strBytes(fr, args[0])
 		if len(b) < len(p) {
@@ -638,7 +650,12 @@ func registerStd() {
 	I["strings.HasSuffix"] = func(m *Machine, fr *frame, args []Value) Value {
 		p, ok := strArg(args[1])
 		if !ok {
-			m.unsupported("strings.HasSuffix with symbolic suffix")
+			pb := m.strBytes(fr, args[1])
+			b := m.strBytes(fr, args[0])
+			if len(b) < len(pb) {
+				return m.C.False
+			}
+			return m.bytesEq(b[len(b)-len(pb):], pb)
 		}
 		b := m.strBytes(fr, args[0])
 		if len(b) < len(p) {
@@ -978,6 +995,71 @@ func registerStd() {
 			return Tuple{Slice{}, m.newError("open " + name + ": no such file")}
 		}
 		return Tuple{m.bytesToSlice(append([]*smt.Term{}, b...)), Iface{}}
+	}
+	// os.OpenFile / (*os.File).Write: a file object with a name and a write
+	// offset over the in-memory file table. Without O_TRUNC the existing
+	// content stays and is overwritten in place (what follows the written
+	// bytes survives); O_APPEND starts at the end.
+	I["os.OpenFile"] = func(m *Machine, fr *frame, args []Value) Value {
+		name, ok := concreteStr(args[0])
+		fl, ok2 := args[1].(*smt.Term)
+		if !ok || !ok2 || !fl.IsConst() {
+			m.unsupported("os.OpenFile with symbolic name or flags")
+		}
+		files, _ := m.env["files"].(map[string][]*smt.Term)
+		if files == nil {
+			files = map[string][]*smt.Term{}
+			m.env["files"] = files
+		}
+		flags := int(fl.Val)
+		_, exists := files[name]
+		if !exists {
+			if flags&os.O_CREATE == 0 {
+				return Tuple{(*Value)(nil), m.newError("open " + name + ": no such file or directory")}
+			}
+			files[name] = nil
+		} else if flags&os.O_TRUNC != 0 {
+			files[name] = nil
+		}
+		f := &fileObj{name: name}
+		if flags&os.O_APPEND != 0 {
+			f.off = len(files[name])
+		}
+		return Tuple{m.newOpaquePtr("os.File", f), Iface{}}
+	}
+	I["(*os.File).Write"] = func(m *Machine, fr *frame, args []Value) Value {
+		m.ioYield()
+		f, _ := opaqueOf(args[0]).Data.(*fileObj)
+		if f == nil {
+			return Tuple{m.i64(0), Iface{}} // os.Create stub of the start-up harness: content not kept
+		}
+		files := m.env["files"].(map[string][]*smt.Term)
+		b := m.sliceBytes(args[1].(Slice))
+		cur := files[f.name]
+		for len(cur) < f.off+len(b) {
+			cur = append(cur, m.b8(0))
+		}
+		cur = append([]*smt.Term{}, cur...)
+		copy(cur[f.off:], b)
+		files[f.name] = cur
+		f.off += len(b)
+		m.env["lastFile"] = f.name
+		return Tuple{m.i64(int64(len(b))), Iface{}}
+	}
+	I["(*os.File).Sync"] = func(m *Machine, fr *frame, args []Value) Value { return Iface{} }
+	I["(*os.File).Truncate"] = func(m *Machine, fr *frame, args []Value) Value {
+		f, _ := opaqueOf(args[0]).Data.(*fileObj)
+		n, ok := args[1].(*smt.Term)
+		if f == nil || !ok || !n.IsConst() {
+			m.unsupported("(*os.File).Truncate with a symbolic size")
+		}
+		files := m.env["files"].(map[string][]*smt.Term)
+		cur := files[f.name]
+		for len(cur) < int(n.Val) {
+			cur = append(cur, m.b8(0))
+		}
+		files[f.name] = append([]*smt.Term{}, cur[:int(n.Val)]...)
+		return Iface{}
 	}
 	I["os.Getpid"] = func(m *Machine, fr *frame, args []Value) Value { return m.i64(4242) }
 	I["os.Rename"] = func(m *Machine, fr *frame, args []Value) Value {
